@@ -19,14 +19,14 @@ def step (c impl : String) : String :=
   | ["c19", kind, _seed] =>
     if impl.startsWith "PANIC" then
       specViol s!"panic in the request goroutine of a {kind} request: {(impl.drop 6).toString}"
-    else if impl.startsWith "bad" then "SKIP " ++ impl
+    else if impl.startsWith "bad" || impl.startsWith "skipped" then "SKIP " ++ impl
     else
       let toks := fields impl
       let codes := (kv toks "codes").splitOn ","
       let slow := kv toks "slow"
       let big := kv toks "big"
       let internal := kv toks "internal"
-      if slow ≠ "" then specViol s!"slow: {slow} of a {kind} case took longer than 8 s (hostile input must be answered quickly)"
+      if slow ≠ "" then specViol s!"slow: {slow} of a {kind} case took longer than the time bound (8 s; hostile input must be answered quickly)"
       else if big ≠ "" then specViol s!"memory: {big} of a {kind} case allocated more than 1.5 GB"
       else if codes.any (fun cd => cd.endsWith "!panic") then
         specViol s!"a recovered panic was reported as an error by {kind}: {kv toks "codes"}"
